@@ -32,7 +32,8 @@ CONSTANTS MaxLen,     \* generation: history length bound
 \* depend on it either - the specification has no notion of object identity or address at all
 \* "deep": get_converter() is called with almost no stack left, repeatedly with a little more room; such a call may
 \* fail (RecursionError - a fault of the environment, H_create does not apply) but must leave nothing behind
-Cfgs == {"fresh", "user", "user_nodetail", "same_again", "user_hook", "drop", "deep"}
+\* "user_omit": the application's converter was built with omit_if_default=True (what the package writes is fixed per attribute)
+Cfgs == {"fresh", "user", "user_nodetail", "same_again", "user_hook", "drop", "deep", "user_omit"}
 
 VARIABLES svHistory,
           svR,      \* trace: run being replayed
